@@ -5151,6 +5151,41 @@ where
     }
 }
 
+/// Raw inserters for stored-state fault injection (verification builds only).
+///
+/// They bypass the duplicate / manifold / dimension checks of the regular insertion paths so a
+/// simulator can plant duplicate cells, detached or pinching cells and isolated vertices in an
+/// otherwise valid complex and check that the validators reject it.
+#[cfg(delaunay_verif)]
+impl<T, U, V, const D: usize> Tds<T, U, V, D>
+where
+    T: CoordinateScalar,
+    U: DataType,
+    V: DataType,
+{
+    /// Insert a cell over existing vertex keys without any topological check.
+    pub fn verif_insert_cell_raw(&mut self, vertices: Vec<VertexKey>) -> Option<CellKey> {
+        let cell = Cell::new(vertices, None).ok()?;
+        let uuid = cell.uuid();
+        let key = self.cells.insert(cell);
+        self.uuid_to_cell_key.insert(uuid, key);
+        self.bump_generation();
+        Some(key)
+    }
+
+    /// Insert a vertex that is not incident to any cell.
+    pub fn verif_insert_vertex_raw(&mut self, vertex: Vertex<T, U, D>) -> Option<VertexKey> {
+        if self.uuid_to_vertex_key.contains_key(&vertex.uuid()) {
+            return None;
+        }
+        let uuid = vertex.uuid();
+        let key = self.vertices.insert(vertex);
+        self.uuid_to_vertex_key.insert(uuid, key);
+        self.bump_generation();
+        Some(key)
+    }
+}
+
 // =============================================================================
 // SERDE HELPERS
 // =============================================================================
